@@ -5,7 +5,9 @@ import (
 	"reflect"
 	"regexp"
 	"sort"
+	"strconv"
 	"strings"
+	"time"
 
 	ucfg "github.com/elastic/go-ucfg"
 
@@ -29,6 +31,7 @@ var owners = map[string][]string{
 	"success":        {"C13", "C04", "C14"},
 	"result":         {"C13"},
 	"validators-run": {"C04"},
+	"validators-hold": {"C04"},
 	"fault-fails":    {"C04", "C13", "C14"},
 	"error-typed":    {"C14"},
 	"error-names":    {"C14", "C04"},
@@ -333,6 +336,7 @@ func Run(r *sim.R, prop string) {
 		return
 	}
 	target := e.newTarget()
+	snap0 := takeSnapshot(target)
 	pre := fmt.Sprintf("%+v", target.Elem())
 	cb = &Callbacks{FailAt: -1}
 	var err error
@@ -341,12 +345,40 @@ func Run(r *sim.R, prop string) {
 	r.Tracef("pre-filled %s", pre)
 	r.Tracef("Unpack = %v; result %+v; %d callbacks", err, target.Elem(), len(log))
 	r.StateOps += 2
+	want := reflect.New(e.S.Type).Elem()
+	e.C.expect(want, true)
+	// ---- values that break a built-in validator of their field's tag (C04): the result the
+	// call would have to produce is known, so is whether it may be produced at all
+	if bad := boundViolations(e.C, want, true); len(bad) > 0 {
+		var paths []string
+		lenient := false
+		var descr []string
+		for _, b := range bad {
+			paths = append(paths, b.fc.Path)
+			if !b.mentioned {
+				lenient = true
+			}
+			descr = append(descr, fmt.Sprintf("%s = %s breaks %s (%s)", b.fc.Path, b.val, b.fc.F.Bound, b.source()))
+			r.Fault("value breaks a built-in validator: " + b.source())
+			if b.viaPtr {
+				r.Probe("unpack: invalid value behind a pointer")
+			}
+		}
+		what := strings.Join(descr, "; ")
+		r.Tracef("fault: %s -> %v", what, err)
+		if err == nil {
+			e.fail("validators-hold", "Unpack", map[string]string{"what": what, "source": bad[0].source(), "bound": bad[0].fc.F.Bound, "kind": bad[0].fc.F.Kind.String()},
+				"Unpack succeeded although the result breaks a validator of a field's tag: %s\n  result %+v", what, target.Elem())
+			return
+		}
+		e.checkError(err, "Unpack", paths, lenient, what)
+		e.checkUnchanged(target, snap0, "Unpack", what)
+		return
+	}
 	if err != nil {
 		e.fail("success", "Unpack", nil, "Unpack of a valid config into a valid target failed: %v", err)
 		return
 	}
-	want := reflect.New(e.S.Type).Elem()
-	e.C.expect(want, true)
 	if d := diffValues("", target.Elem(), want); d != "" {
 		e.fail("result", "Unpack", map[string]string{"diff": d}, "Unpack did not produce 'pre-filled value overwritten at exactly the mentioned fields': %s\n  got  %+v\n  want %+v", d, target.Elem(), want)
 	}
@@ -584,4 +616,128 @@ func canonHitValue(v interface{}) string {
 		}
 	}
 	return fmt.Sprintf("%v", rv)
+}
+
+// ---------------------------------------------------------------------------------------------
+// Built-in validators: a value-level reference (what the tag says about the final value of the
+// field, wherever that value came from and whether or not it sits behind a pointer).
+
+type boundViolation struct {
+	fc        *FieldCase
+	val       string
+	mentioned bool
+	viaPtr    bool
+}
+
+func (b boundViolation) source() string {
+	switch {
+	case b.mentioned:
+		return "from the configuration"
+	case b.fc.F.Kind == KPI:
+		return "from InitDefaults"
+	}
+	return "from a pre-filled default"
+}
+
+// breaks: does the final value f of a field break the built-in validator bound?
+func breaks(bound string, f reflect.Value) (bool, string, bool) {
+	viaPtr := false
+	for f.Kind() == reflect.Ptr {
+		if f.IsNil() {
+			return false, "", false // nothing to validate ("required" is handled elsewhere)
+		}
+		f = f.Elem()
+		viaPtr = true
+	}
+	name, param := bound, ""
+	if i := strings.Index(bound, "="); i >= 0 {
+		name, param = bound[:i], bound[i+1:]
+	}
+	if f.Type() == reflect.TypeOf(time.Duration(0)) {
+		d := time.Duration(f.Int())
+		// a bound is a duration literal, or a number of seconds
+		lim, err := time.ParseDuration(param)
+		if err != nil {
+			secs, _ := strconv.ParseFloat(param, 64)
+			lim = time.Duration(secs * float64(time.Second))
+		}
+		switch name {
+		case "min":
+			return d < lim, d.String(), viaPtr
+		case "max":
+			return d > lim, d.String(), viaPtr
+		case "nonzero":
+			return d == 0, d.String(), viaPtr
+		case "positive":
+			return d < 0, d.String(), viaPtr
+		}
+		return false, "", viaPtr
+	}
+	var x float64
+	switch f.Kind() {
+	case reflect.Int, reflect.Int8, reflect.Int16, reflect.Int32, reflect.Int64:
+		x = float64(f.Int())
+	case reflect.Uint, reflect.Uint8, reflect.Uint16, reflect.Uint32, reflect.Uint64:
+		x = float64(f.Uint())
+	case reflect.Float32, reflect.Float64:
+		x = f.Float()
+	case reflect.String:
+		return name == "nonzero" && f.String() == "", strconv.Quote(f.String()), viaPtr
+	default:
+		return false, "", viaPtr
+	}
+	s := fmt.Sprint(x)
+	lim, _ := strconv.ParseFloat(param, 64)
+	switch name {
+	case "min":
+		return x < lim, s, viaPtr
+	case "max":
+		return x > lim, s, viaPtr
+	case "nonzero":
+		return x == 0, s, viaPtr
+	case "positive":
+		return x < 0, s, viaPtr
+	}
+	return false, "", viaPtr
+}
+
+// boundViolations lists the reachable fields of v whose value breaks their built-in validator.
+func boundViolations(sc *StructCase, v reflect.Value, present bool) []boundViolation {
+	var out []boundViolation
+	for i, fc := range sc.Fields {
+		f := v.Field(i)
+		m := present && fc.Mention
+		switch fc.F.Kind {
+		case KInline:
+			out = append(out, boundViolations(fc.Sub, f, present)...)
+			continue
+		case KStruct:
+			out = append(out, boundViolations(fc.Sub, f, m)...)
+			continue
+		case KPStruct:
+			if !f.IsNil() {
+				out = append(out, boundViolations(fc.Sub, f.Elem(), m)...)
+			}
+			continue
+		case KSStruct:
+			for j := 0; j < f.Len() && j < len(fc.Elems); j++ {
+				out = append(out, boundViolations(fc.Elems[j], f.Index(j), true)...)
+			}
+			continue
+		case KMStruct:
+			for j, k := range fc.Keys {
+				if x := f.MapIndex(reflect.ValueOf(k)); x.IsValid() {
+					out = append(out, boundViolations(fc.Elems[j], x, true)...)
+				}
+			}
+			continue
+		}
+		if fc.F.Bound == "" {
+			continue
+		}
+		if bad, val, viaPtr := breaks(fc.F.Bound, f); bad {
+			out = append(out, boundViolation{fc: fc, val: val, mentioned: m, viaPtr: viaPtr})
+		}
+	}
+	return out
 }
